@@ -77,6 +77,7 @@ static int answer(int modulo, int natural)
     }
 }
 static int g_describe_fails, g_open_fails;
+static int g_prim_called[8], g_prim_ans[8]; // per HAL call: did the driver's set/start/stop/get_frame run, and its answer
 
 static struct mockdev* find_dev(void* obj)
 {
@@ -96,7 +97,7 @@ static struct mockdev* dev_of(void* obj, const char* call)
 
 // camera interface
 static enum DeviceStatusCode mc_set(struct Camera* c, struct CameraProperties* p) { (void)p;
-    dev_of(c, "set"); vbuf_printf(&g_log, "<set> "); return answer(2, 0) ? Device_Err : Device_Ok; }
+    dev_of(c, "set"); vbuf_printf(&g_log, "<set> "); int a = answer(2, 0); g_prim_called[0] = 1; g_prim_ans[0] = a; return a ? Device_Err : Device_Ok; }
 static enum DeviceStatusCode mc_get(const struct Camera* c, struct CameraProperties* p) { (void)p;
     dev_of((void*)c, "get"); return answer(2, 0) ? Device_Err : Device_Ok; }
 static enum DeviceStatusCode mc_get_meta(const struct Camera* c, struct CameraPropertyMetadata* p) { (void)p;
@@ -108,6 +109,7 @@ static enum DeviceStatusCode mc_start(struct Camera* c)
     struct mockdev* d = dev_of(c, "start"); vbuf_printf(&g_log, "<start> ");
     int a = answer(2, 0);
     if (d) d->cam_running = !a;
+    g_prim_called[1] = 1; g_prim_ans[1] = a;
     return a ? Device_Err : Device_Ok;
 }
 static enum DeviceStatusCode mc_stop(struct Camera* c)
@@ -115,7 +117,8 @@ static enum DeviceStatusCode mc_stop(struct Camera* c)
     struct mockdev* d = dev_of(c, "stop"); vbuf_printf(&g_log, "<stop> ");
     if (d && !d->cam_running) { ++g_illegal; violation("camera-stop-without-start", "driver stop without an outstanding successful start"); }
     if (d) d->cam_running = 0;
-    return answer(2, 0) ? Device_Err : Device_Ok;
+    int a = answer(2, 0); g_prim_called[2] = 1; g_prim_ans[2] = a;
+    return a ? Device_Err : Device_Ok;
 }
 static enum DeviceStatusCode mc_trigger(struct Camera* c)
 {
@@ -127,7 +130,8 @@ static enum DeviceStatusCode mc_get_frame(struct Camera* c, void* im, size_t* n,
     (void)im; (void)n; (void)info;
     struct mockdev* d = dev_of(c, "get_frame"); vbuf_printf(&g_log, "<frame> ");
     if (d && !d->cam_running) { ++g_illegal; violation("camera-get-frame-not-running", "driver get_frame outside the running state"); }
-    return answer(2, 0) ? Device_Err : Device_Ok;
+    int a = answer(2, 0); g_prim_called[3] = 1; g_prim_ans[3] = a;
+    return a ? Device_Err : Device_Ok;
 }
 // storage interface
 static const enum DeviceState k_states[4] = { DeviceState_Closed, DeviceState_AwaitingConfiguration,
@@ -251,6 +255,7 @@ static void run_sequence(int kind, const int* ops, const int* ans, int nops)
         int op = ops[i];
         unsigned long calls0 = g_driver_calls;
         if (ans) g_step_answer = ans[i];
+        memset(g_prim_called, 0, sizeof g_prim_called);
         vbuf_printf(&g_log, "%s ", k_opname[op]);
         ++C.hal_calls;
         if (op == OP_REOPEN) {
@@ -265,22 +270,25 @@ static void run_sequence(int kind, const int* ops, const int* ans, int nops)
             struct ImageInfo info; size_t nbytes = sizeof g_frames;
             enum DeviceStatusCode rc;
             switch (op) {
-                case OP_SET: {
-                    int was_running = model == DeviceState_Running;
+                // The expected state follows from the answer of the driver function this HAL call is about
+                // (documented Ok/Err mapping).  If the HAL did not call the driver at all (a guard), the state
+                // must stay what it was.
+                case OP_SET:
                     rc = camera_set(cam, &props);
-                    if (rc == Device_Ok) model = was_running ? DeviceState_Running : DeviceState_Armed;
-                    else model = DeviceState_AwaitingConfiguration;
+                    if (g_prim_called[0]) model = g_prim_ans[0] ? DeviceState_AwaitingConfiguration : (model == DeviceState_Running ? DeviceState_Running : DeviceState_Armed);
                     break;
-                }
-                case OP_START: rc = camera_start(cam); model = rc == Device_Ok ? DeviceState_Running : DeviceState_AwaitingConfiguration; break;
+                case OP_START:
+                    rc = camera_start(cam);
+                    if (g_prim_called[1]) model = g_prim_ans[1] ? DeviceState_AwaitingConfiguration : DeviceState_Running;
+                    break;
                 case OP_STOP:
                     rc = camera_stop(cam);
-                    if (model == DeviceState_Running) model = rc == Device_Ok ? DeviceState_Armed : DeviceState_AwaitingConfiguration;
+                    if (g_prim_called[2]) model = g_prim_ans[2] ? DeviceState_AwaitingConfiguration : DeviceState_Armed;
                     break;
                 case OP_IO: case OP_IO_EMPTY:
                     rc = camera_get_frame(cam, g_frames, &nbytes, &info);
-                    if (model == DeviceState_Running) { if (rc != Device_Ok) model = DeviceState_AwaitingConfiguration; }
-                    else if (rc == Device_Ok) violation("get-frame-ok-not-running", "camera_get_frame returned Ok while not running");
+                    if (g_prim_called[3]) { if (g_prim_ans[3]) model = DeviceState_AwaitingConfiguration; }
+                    else if (rc == Device_Ok) violation("get-frame-ok-without-driver", "camera_get_frame returned Ok although the driver was not asked");
                     break;
                 case OP_TRIG: camera_execute_trigger(cam); break;
                 case OP_GET: camera_get(cam, &props); break;
